@@ -18,6 +18,7 @@ import PvModel.Proofs.FD
 import PvModel.Proofs.Stream
 import PvModel.Model.Goals
 import PvModel.Proofs.FDExact
+import PvModel.Proofs.FDProgram
 namespace Pv
 open Term State Strm Goal
 
@@ -100,6 +101,19 @@ theorem C17_fail_means_unsat {ord : Order} (ho : OrderOK ord) (n : Nat) (as : Li
 theorem C17_unify_exact {ord : Order} (ho : OrderOK ord) (st : State) (w : WFS st) (hi : Inv st) (u v : Term) :
     Ref0 NoI (fun γ => apply γ u = apply γ v) st (unify ord st u v) :=
   unify_sem ho (iok_noI st) w hi u v
+
+
+/-- PROGRAMS ON THE ENGINE (completeness): for every constraint program (conjunction, `conde`, `fresh` over
+    atoms of the fragment) the search terminates and every solution of every path of the program is
+    described by one of the delivered states — no solution is lost by propagation or by the search
+    (a path whose own run exhausts the model's unification fuel is reported as FUEL by the driver). -/
+theorem C17_program_complete {ord : Order} (ho : OrderOK ord) (dfs : Call → State → State × G) (pf M nv : Nat)
+    (p : FProg) (hok : p.OK) :
+    ∃ k ys, drainF (solveAt dfs pf (M + 1)) k (solveAt dfs pf (M + 1) (p.goal ord) (State.empty nv)) = some ys ∧
+      ∀ path ∈ p.paths, ∀ γ, (∀ a ∈ path, a.Sat γ) → postAllF ord (State.empty nv) path ≠ .fuel →
+        ∃ s ∈ ys, Sem NoI γ s := by
+  obtain ⟨k, ys, h1, _, _, h4⟩ := fd_program ho dfs pf M nv p hok
+  exact ⟨k, ys, h1, h4⟩
 
 
 section Examples
